@@ -207,8 +207,25 @@ def check_C18(ctx):
         a = gen_oset_script(ctx.rng, ty)
         b = gen_oset_script(ctx.rng, ty) if ctx.rng.random() < 0.7 else ';'.join(reversed(a.split(';')))
         lines.append('%s %s|%s' % (ty, a, b))
+    # large sets of every element type, then EVERY element inserted again one by one (and a few absent ones): an insert that
+    # is wrong only at one position of a large set is met
+    def enc(ty, k):
+        if ty == 'n':
+            return str(10 + 3 * k)
+        if ty == 'p':
+            return '%d.%d' % (k // 7, k % 7)
+        return ('k%04d' % k).encode().hex()
+    for ty, size in (('s', 200), ('s', 345), ('n', 600), ('n', 1100), ('p', 300), ('p', 530)):
+        elems = [enc(ty, k) for k in range(size)]
+        order = list(range(size))
+        if ctx.rng.random() < 0.5:
+            ctx.rng.shuffle(order)
+        script = ['f:' + ','.join(elems)] + ['i:' + elems[k] for k in order]
+        lines.append('%s %s|f:%s' % (ty, ';'.join(script), ','.join(elems)))
+    big_from = len(lines) - 6
     r = vlib.run_rust('oset', lines)
-    m = vlib.run_model('oset', lines) if ctx.model_ok else [None] * len(lines)
+    # the model is run on everything but the six reinsert-all scripts (quadratic traces); those are decided by BTreeSet
+    m = (vlib.run_model('oset', lines[:big_from]) + [None] * 6) if ctx.model_ok else [None] * len(lines)
     for case, x, y in zip(lines, r, m):
         res.count(case, case.count(';') >= 2)
         res.sample(dict(script=case, impl=x))
@@ -789,6 +806,9 @@ def automaton_cases(ctx, n):
         cases.append(('generated', s))
     for _ in range(ctx.n(12, 200)):
         cases.append(('conflict-motif', gen.render(ctx.rng, gen.conflict_motif(ctx.rng), 'plain')))
+    # item sets of 33..70 items (crate vs reference only, like the joined grammars)
+    for _ in range(ctx.n(8, 100)):
+        cases.append(('joined', gen.render(ctx.rng, gen.big_state_grammar(ctx.rng), 'plain')))
     # large automata (hundreds of states and transitions, dozens of terminals) made of small pieces: accepted pieces plus at
     # most one conflicting piece, so that a small conflict pattern is THE conflict of a big automaton
     pool = [gen.gen_grammar(ctx.rng, max_nts=3, max_terms=3, adversarial=0.0, name_relations=0.0, many_terminals=0.0, letterless=0.0,
